@@ -8,6 +8,7 @@ import (
 	"crypto/sha256"
 	"crypto/x509"
 	"encoding/asn1"
+	"encoding/base64"
 	"encoding/xml"
 	"fmt"
 	"math/big"
@@ -85,6 +86,11 @@ func Create(signer xmlsig.Signer, data interface{}) (*xml_dsig.SignatureType, er
 	if err != nil {
 		return nil, err
 	}
+	// xmlsig writes text and attribute values into its canonical form without escaping them,
+	// so digest and signature are calculated again over the exclusive canonical form
+	if err := signCanonicalForm(signer, sig, data); err != nil {
+		return nil, err
+	}
 	transforms := []xml_dsig.TransformType{}
 	for _, t := range sig.SignedInfo.Reference.Transforms.Transform {
 		transforms = append(transforms, xml_dsig.TransformType{
@@ -127,6 +133,42 @@ func Create(signer xmlsig.Signer, data interface{}) (*xml_dsig.SignatureType, er
 			}},
 		},
 	}, nil
+}
+
+func signCanonicalForm(signer xmlsig.Signer, sig *xmlsig.Signature, data interface{}) error {
+	canonicalData, err := exclusiveCanonicalForm(data)
+	if err != nil {
+		return err
+	}
+	switch sig.SignedInfo.Reference.DigestMethod.Algorithm {
+	case "http://www.w3.org/2000/09/xmldsig#sha1":
+		digest := sha1.Sum(canonicalData)
+		sig.SignedInfo.Reference.DigestValue = base64.StdEncoding.EncodeToString(digest[:])
+	case "http://www.w3.org/2001/04/xmlenc#sha256":
+		digest := sha256.Sum256(canonicalData)
+		sig.SignedInfo.Reference.DigestValue = base64.StdEncoding.EncodeToString(digest[:])
+	default:
+		return fmt.Errorf("unsupported digest algorithm: %s", sig.SignedInfo.Reference.DigestMethod.Algorithm)
+	}
+
+	canonicalSignedInfo, err := exclusiveCanonicalForm(sig.SignedInfo)
+	if err != nil {
+		return err
+	}
+	sig.SignatureValue, err = signer.Sign(canonicalSignedInfo)
+	return err
+}
+
+func exclusiveCanonicalForm(data interface{}) ([]byte, error) {
+	marshalled, err := xml.Marshal(data)
+	if err != nil {
+		return nil, err
+	}
+	doc := etree.NewDocument()
+	if err := doc.ReadFromBytes(marshalled); err != nil {
+		return nil, err
+	}
+	return dsig.MakeC14N10ExclusiveCanonicalizerWithPrefixList("").Canonicalize(doc.Root())
 }
 
 func ValidatePost(certs []*x509.Certificate, el *etree.Element) error {
